@@ -17,6 +17,7 @@ CACHE = OBJ('Cache')
 F_, NCF_, SB_, CD_ = 'Cache._files', 'Cache._norm_cased_files', 'Cache._subbuilds', \
     'Cache._created_dirs'
 FV_, OV_, BN_ = 'Cache._func_versions', 'Cache._operation_versions', 'Cache._build_name'
+BF_ = 'Cache._built_files'
 RAISED, SETUPF = 'ComplexOperation.raised', 'ComplexOperation.setup_failed'
 FILENAME = 'BuildFileOperation.filename'
 
@@ -78,7 +79,7 @@ CONTRACTS.append(Contract(
                         c.res == created(c, 'old', c.self, c.norm_cased_filename, NCF_))],
     modifies=NOTHING))
 
-CLAIM_LOCKS = {F_: '_files_lock', NCF_: '_files_lock', SB_: '_subbuilds_lock',
+CLAIM_LOCKS = {F_: '_files_lock', NCF_: '_files_lock', BF_: '_files_lock', SB_: '_subbuilds_lock',
                CD_: '_created_dirs_lock'}
 
 
@@ -93,10 +94,19 @@ CONTRACTS.append(with_locks(Contract(
     ensures=lambda c: [
         ('claimed', c.new(F_, c.self) == z3.Store(c.old(F_, c.self), c.filename, OO.some(OI.none))),
         ('claimed-nc', c.new(NCF_, c.self)
-         == z3.Store(c.old(NCF_, c.self), c.filename, OO.some(OI.none)))],
+         == z3.Store(c.old(NCF_, c.self), c.filename, OO.some(OI.none))),
+        # C02.R4: the cache remembers which files this build (re)built, as opposed to results it
+        # reused -- rollback must remove exactly those
+        ('recorded-as-built', c.new(BF_, c.self) == z3.Store(c.old(BF_, c.self), c.filename, True),
+         ['C02', 'C03'])],
     raises=[ExcSpec('RuntimeError', when=lambda c: OO.is_some(c.old(NCF_, c.self)[c.filename]),
                     modifies=NOTHING)],
-    modifies=lambda c: [(F_, c.self), (NCF_, c.self)])))
+    modifies=lambda c: [(F_, c.self), (NCF_, c.self), (BF_, c.self)])))
+
+CONTRACTS.append(with_locks(Contract(
+    M + 'built_file', props=['C02', 'C03'], params={'self': CACHE, 'filename': STR}, returns=BOOL,
+    ensures=lambda c: [('is-membership', c.res == c.old(BF_, c.self)[c.filename])],
+    modifies=NOTHING)))
 
 CONTRACTS.append(with_locks(Contract(
     M + 'finish_building_file', props=['C08', 'C04', 'C10'],
@@ -209,7 +219,7 @@ CONTRACTS.append(Contract(
 
 
 # ---- construction / reading ------------------------------------------------------------------------
-ALLF = [BN_, F_, NCF_, SB_, CD_, FV_, OV_, 'Cache._files_lock', 'Cache._subbuilds_lock',
+ALLF = [BN_, F_, NCF_, SB_, CD_, FV_, OV_, BF_, 'Cache._files_lock', 'Cache._subbuilds_lock',
         'Cache._created_dirs_lock']
 FILES_T = SH[F_]
 k = z3.Const('ca!k', StrS)
@@ -225,7 +235,8 @@ CONTRACTS.append(Contract(
         ('subbuilds', c.new(SB_, c.self) == c.subbuilds),
         ('created-dirs', c.new(CD_, c.self) == c.created_dirs),
         ('versions', And(c.new(FV_, c.self) == c.func_versions,
-                         c.new(OV_, c.self) == c.operation_versions))],
+                         c.new(OV_, c.self) == c.operation_versions)),
+        ('nothing-built-yet', c.new(BF_, c.self) == z3.K(StrS, z3.BoolVal(False)), ['C02'])],
     loops={0: LoopSpec(inv=lambda c: [
         ('copied-so-far', ForAll([k], c.new(NCF_, c.self)[k]
                                  == If(c.loop['done'][k], c.files[k], OO.none))),
@@ -233,7 +244,8 @@ CONTRACTS.append(Contract(
                              c.new(SB_, c.self) == c.subbuilds,
                              c.new(CD_, c.self) == c.created_dirs,
                              c.new(FV_, c.self) == c.func_versions,
-                             c.new(OV_, c.self) == c.operation_versions))])},
+                             c.new(OV_, c.self) == c.operation_versions,
+                             c.new(BF_, c.self) == z3.K(StrS, z3.BoolVal(False))))])},
     modifies=lambda c: [(f, c.self) for f in ALLF]))
 
 
